@@ -489,6 +489,9 @@ func init() {
 				if c.Idx%256 == 22 {
 					c09Prefilled(c)
 				}
+				if c.Idx%256 == 38 {
+					c09EscapedKeys(c)
+				}
 			case fam < 5:
 				// documents x destination types x chunkings
 				var doc []byte
@@ -852,6 +855,49 @@ func c09Prefilled(c *rt.Ctx) {
 			}
 		}
 	}
+}
+
+// c09EscapedKeys: member names spelled with escapes - two-character ones, BMP \u escapes and
+// surrogate pairs for names outside the BMP - under every single cut and piece sizes 1..17: the
+// stream key matchers look ahead across refills while they decode an escape.
+func c09EscapedKeys(c *rt.Ctx) {
+	type dst struct {
+		Big   int    `json:"\U00020000"`
+		Emo   string `json:"x\U0001F600y"`
+		Acc   int    `json:"\u00e9t\u00e9"`
+		Sl    int    `json:"a/b"`
+		Plain int    `json:"plain"`
+	}
+	t := reflect.TypeOf(dst{})
+	u := func(h string) string { return "\\" + "u" + h }
+	keys := [][2]string{
+		{u("d840") + u("dc00"), "Big"}, {"\U00020000", "Big"}, {"x" + u("d83d") + u("de00") + "y", "Emo"}, {"x\U0001F600y", "Emo"}, {u("0078") + u("D83D") + u("DE00") + u("0079"), "Emo"},
+		{u("00e9") + "t" + u("00E9"), "Acc"}, {"a\\/b", "Sl"}, {"a" + u("002f") + "b", "Sl"}, {u("0070") + "lain", "Plain"}, {u("d840") + "x", ""}, {u("d840") + u("0041"), ""},
+	}
+	sub := 0
+	for _, k := range keys {
+		for _, form := range []string{`{"%s":7,"plain":1}`, `{"plain":1,"%s":7}`, `{ "%s" : 7 }`} {
+			val := "7"
+			if k[1] == "Emo" {
+				val = `"seven"`
+			}
+			doc := []byte(strings.Replace(fmt.Sprintf(form, k[0]), ":7", ":"+val, 1))
+			doc = []byte(strings.Replace(string(doc), ": 7", ": "+val, 1))
+			tree, _ := oracle.Parse(doc)
+			sub++
+			if !c.Cur(sub, "shapes=core\nescaped member name: "+string(doc)) {
+				continue
+			}
+			for p := 1; p < len(doc); p++ {
+				compareStreamBuffer(c, sub, doc, tree, tree != nil, t, &chunkReader{data: doc, cuts: []int{p}, failAt: -1}, "single-cut", p)
+			}
+			for size := 1; size <= 17; size++ {
+				compareStreamBuffer(c, sub, doc, tree, tree != nil, t, &chunkReader{data: doc, cuts: fixedCuts(len(doc), size), failAt: -1}, fmt.Sprintf("fixed=%d", size), -1)
+			}
+			c.NonTrivial("esckey", string(doc))
+		}
+	}
+	c.Obs("escaped_key_documents", int64(sub))
 }
 
 func c09BigSkips(c *rt.Ctx) {
